@@ -647,7 +647,7 @@ package protocol
 //@ // send nor a receive cipher - i.e. before any first segment authenticated - a write
 //@ // attempt fails without a single byte reaching the connection.
 //@ func (t *StreamUnderlay) writeOneSegment(seg *segment) (err error)
-//@   property C05 C16
+//@   property C05 C16 C01 C04
 //@   mode int
 //@   partial
 //@   posts_only
@@ -658,6 +658,18 @@ package protocol
 //@   assert_at "das.prefixLen = uint8(len(padding1))": [C16] len(padding1) <= 255 && (t.trafficPattern != nil && t.trafficPattern.Padding != nil && t.trafficPattern.Padding.MaxMiddlePaddingLen != nil ==> len(padding1) <= max(0, int(*t.trafficPattern.Padding.MaxMiddlePaddingLen)))
 //@   assert_at "das.suffixLen = uint8(len(padding2))": [C16] len(padding2) <= 255 && (t.trafficPattern != nil && t.trafficPattern.Padding != nil && t.trafficPattern.Padding.MaxEndPaddingLen != nil ==> len(padding2) <= max(0, int(*t.trafficPattern.Padding.MaxEndPaddingLen)))
 //@   ensures [C05] !old(t.isClient) && old(t.send) == nil && old(t.recv) == nil ==> err != nil && ghost(wr) == old(ghost(wr)) && t.send == nil
+//@   // write-side framing (C01, C04): what goes to the connection for one segment is exactly as
+//@   // long as the lengths its metadata announces - encrypted metadata (48 bytes, plus the 24-byte
+//@   // nonce on the first write), prefix padding, payload plus 16-byte tag if there is a payload,
+//@   // suffix padding - which is what the reader on the other side consumes for it
+//@   assert_call StreamUnderlay.writeWithPossibleFragment: [C01 C04] len(arg0) == 48 + ite(firstWrite, 24, 0) + ite(len(seg.payload) > 0, len(seg.payload) + 16, 0) + int(ss.suffixLen) && int(ss.suffixLen) == len(padding)
+//@   // ... and in that order: the payload is encrypted in place right behind the metadata (and
+//@   // the prefix padding), the suffix padding fills exactly the rest
+//@   assert_at "offset += encryptedPayloadLen": [C01 C04] offset == encryptedMetadataLen
+//@   assert_at "copy(dataToSend[offset:], padding)": [C01 C04] offset + len(padding) == len(dataToSend)
+//@   assert_at "offset += wirePayloadLen": [C01 C04] offset == encryptedMetadataLen + len(padding1)
+//@   assert_at "copy(dataToSend[offset:], padding2)": [C01 C04] offset + len(padding2) == len(dataToSend)
+//@   assert_call Conn.Write: [C01 C04] !lowEntropy ==> len(arg0) == 48 + ite(firstWrite, 24, 0) + int(das.prefixLen) + ite(len(seg.payload) > 0, len(seg.payload) + 16, 0) + int(das.suffixLen) && int(das.prefixLen) == len(padding1) && int(das.suffixLen) == len(padding2)
 //@
 //@ // What may create a server session (C05, C04): exactly an openSessionRequest with a
 //@ // non-zero session id; and the protocols a server accepts from a client at all.
@@ -788,7 +800,7 @@ package protocol
 //@ // configured maxima for its position (prefix: middle, suffix: end; 0 means none), and
 //@ // what is handed to WriteTo is header + prefix + payload(+tag) + suffix.
 //@ func (u *PacketUnderlay) writeOneSegment(seg *segment, addr net.Addr) (err error)
-//@   property C16 C14
+//@   property C16 C14 C01 C04
 //@   mode int
 //@   partial
 //@   posts_only
@@ -801,6 +813,17 @@ package protocol
 //@   // no datagram longer than the MTU leaves (C14), given a segment whose payload was cut for this
 //@   // MTU (payloadLen + 88 <= mtu, the fragment bound of writeChunk) and whose length field is exact;
 //@   // a low-entropy segment is refused instead when its encoded form would not fit
+//@   // framing (C01, C04): a datagram is exactly as long as its metadata announces - nonce and
+//@   // encrypted metadata (72 bytes), prefix padding, payload plus tag if any, suffix padding - the
+//@   // exact-size law the receiving parser enforces; pieces in that order; the payload is
+//@   // encrypted under the nonce that leads the datagram
+//@   assert_call net.PacketConn.WriteTo: [C01 C04] typeof(seg.metadata) == typeid(*sessionStruct) ==> len(arg0) == 72 + ite(len(seg.payload) > 0, len(seg.payload) + 16, 0) + int(payload(seg.metadata, *sessionStruct).suffixLen)
+//@   assert_call net.PacketConn.WriteTo: [C01 C04] typeof(seg.metadata) == typeid(*dataAckStruct) && payload(seg.metadata, *dataAckStruct).baseStruct.protocol != uint8(dataClientToServerLowEntropy) && payload(seg.metadata, *dataAckStruct).baseStruct.protocol != uint8(dataServerToClientLowEntropy) ==> len(arg0) == 72 + int(payload(seg.metadata, *dataAckStruct).prefixLen) + ite(len(seg.payload) > 0, len(seg.payload) + 16, 0) + int(payload(seg.metadata, *dataAckStruct).suffixLen)
+//@   assert_at "offset += encryptedPayloadLen": [C01 C04] offset == encryptedMetadataLen
+//@   assert_at "copy(dataToSend[offset:], padding)": [C01 C04] offset + len(padding) == len(dataToSend)
+//@   assert_at "offset += wirePayloadLen": [C01 C04] offset == encryptedMetadataLen + len(padding1)
+//@   assert_at "copy(dataToSend[offset:], padding2)": [C01 C04] offset + len(padding2) == len(dataToSend)
+//@   assert_call BlockCipher.EncryptWithNonce: [C01 C04] baseof(arg1) == baseof(dataToSend) && offsetof(arg1) == offsetof(dataToSend) && len(arg1) == 24 && arg2 == seg.payload
 //@   assert_call net.PacketConn.WriteTo: [C14] typeof(seg.metadata) == typeid(*sessionStruct) && len(seg.payload) == int(payload(seg.metadata, *sessionStruct).payloadLen) && len(seg.payload) + 88 <= u.mtu ==> len(arg0) <= u.mtu
 //@   assert_call net.PacketConn.WriteTo: [C14] typeof(seg.metadata) == typeid(*dataAckStruct) && (payload(seg.metadata, *dataAckStruct).baseStruct.protocol == uint8(dataClientToServerLowEntropy) || payload(seg.metadata, *dataAckStruct).baseStruct.protocol == uint8(dataServerToClientLowEntropy) || (len(seg.payload) == int(payload(seg.metadata, *dataAckStruct).payloadLen) && len(seg.payload) + 88 <= u.mtu)) ==> len(arg0) <= u.mtu
 //@
